@@ -133,6 +133,11 @@ install_lock_proxies()
 
 # --------------------------------------------------------------------------- tracer
 
+# the process-wide pattern caches live here; a choice point whose running thread is at a
+# line of one of these files is "inside the cache code"
+CACHE_FILES = frozenset(["lrucache.py", "wildcard.py", "glob.py"])
+_INCACHE = {}
+
 _TRACED = {"shared": {}, "all": {}}
 _TRACED_CUR = _TRACED["shared"]
 _GRAIN_ALL = False
@@ -184,7 +189,8 @@ class Sched(object):
         self.pos = 0
         self.policy = policy        # None | ("p", prob of preempting at a choice point)
         self.rnd = rnd
-        self.trace = []             # (choice, n candidates, stay possible, locks held)
+        self.trace = []             # (choice, n candidates, stay, locks held, in cache code)
+        self.incache = False
         self.threads = [TCtl(i) for i in range(nthreads)]
         self.cur = None
         self.aborted = False
@@ -209,7 +215,7 @@ class Sched(object):
             else:
                 c = r.randrange(n)
         self.pos += 1
-        self.trace.append((c, n, stay, held))
+        self.trace.append((c, n, stay, held, self.incache if stay else False))
         return c
 
     def _pick(self, me):
@@ -268,6 +274,14 @@ class Sched(object):
             self.abort_all()
             raise Abort()
         me.guard = guard
+        if frame is not None:
+            code = frame.f_code
+            ic = _INCACHE.get(code)
+            if ic is None:
+                ic = _INCACHE[code] = os.path.basename(code.co_filename) in CACHE_FILES
+            self.incache = ic
+        else:
+            self.incache = False
         nxt = self._pick(me)
         if nxt is None:
             self._dead()
@@ -623,10 +637,19 @@ def do_call(inst, t, call):
             f.setinfo(P(a[0]), {"details": {"modified": 86400.0 * (t + 1)}})
             return "ok"
         if m == "glob":
-            c = f.glob(P(a[0]).rstrip("/") + "/*").count()
+            c = f.glob(P(a[0]).rstrip("/") + "/" + (a[1] if len(a) > 1 else "*")).count()
             return "glob(%d,%d,%d)" % (c.files, c.directories, c.data)
         if m == "walk":
-            l = sorted(f.walk.files(P(a[0]), filter=["*", "?*"]))
+            l = sorted(f.walk.files(P(a[0]), filter=a[1:] or ["*", "?*"]))
+            return "[" + ",".join(l) + "]"
+        if m == "match":
+            return "T" if f.match([a[1]], a[2]) else "F"
+        if m == "match_glob":
+            return "T" if f.match_glob([P(a[0]).rstrip("/") + "/" + a[1]], P(a[0]).rstrip("/") + "/" + a[2]) else "F"
+        if m == "filterdir":
+            l = [i.name for i in f.filterdir(P(a[0]), files=[a[1]])]
+            if inst.kind == "OSFS":
+                l = sorted(l)
             return "[" + ",".join(l) + "]"
         raise ValueError("unknown method %r" % (m,))
     except Abort:
@@ -642,17 +665,31 @@ def reset_caches(warm):
     fs.glob._PATTERN_CACHE.clear()
     fs.wildcard._PATTERN_CACHE.clear()
     if warm:
-        for pat in warm:
+        globs, wilds = warm
+        for pat in globs:
             fs.glob.match(pat, "/zz")
-        fs.wildcard.match("*", "zz")
-        fs.wildcard.match("?*", "zz")
+            fs.glob.imatch(pat, "/zz")
+        for pat in wilds:
+            fs.wildcard.match(pat, "zz")
+            fs.wildcard.imatch(pat, "zz")
 
 
 def warm_patterns(case, inst):
+    """(glob patterns, wildcard patterns) the calls of a warm case will look up."""
     if not case.get("warm"):
         return None
-    return [inst.path(c["args"][0]).rstrip("/") + "/*"
-            for th in case["threads"] for c in th if c["m"] == "glob"] or ["/*"]
+    globs, wilds = ["/*"], ["*", "?*"]
+    for th in case["threads"]:
+        for c in th:
+            a = c["args"]
+            base = inst.path(a[0]).rstrip("/") + "/"
+            if c["m"] == "glob":
+                globs.append(base + (a[1] if len(a) > 1 else "*"))
+            elif c["m"] == "match_glob":
+                globs.append(base + a[1])
+            elif c["m"] in ("walk", "match", "filterdir") and len(a) > 1:
+                wilds.append(a[1])
+    return globs, wilds
 
 
 # --------------------------------------------------------------------------- runs
@@ -897,6 +934,39 @@ def multi_cases(kind, seed, count):
     return cases
 
 
+CACHE_PATTERN = "*.py"
+CACHE_DIR = "/d/s"          # one file: a handful of cache look-ups per call
+CACHE_TEMPLATES = ["match", "match_glob", "filterdir", "walk", "glob"]
+
+
+def cache_call(tpl):
+    if tpl == "match":
+        args = [CACHE_DIR, CACHE_PATTERN, "x.py"]
+    elif tpl == "match_glob":
+        args = [CACHE_DIR, CACHE_PATTERN, "x.py"]
+    else:
+        args = [CACHE_DIR, CACHE_PATTERN]
+    return dict(m=tpl, tpl=tpl + "*", p=CACHE_DIR, args=args)
+
+
+def cache_cases(kind, warm):
+    """Two threads use the same pattern matching entry point / the same pattern: the
+    process-wide LRU caches of fs.wildcard and fs.glob are the only shared state."""
+    cases = []
+    for i, t1 in enumerate(CACHE_TEMPLATES):
+        for t2 in CACHE_TEMPLATES[i:]:
+            c = dict(fs=kind, relation="same", config="cache-" + ("warm" if warm else "cold"),
+                     threads=[[cache_call(t1)], [cache_call(t2)]])
+            if warm:
+                c["warm"] = True
+            cases.append(c)
+    return cases
+
+
+CACHE_PARAMS = dict(bound=1, cap1=100000, cap2=0, random=10, uniform=0, cache2=True, unit=1,
+                    case_timeout=300)
+
+
 def case_text(case):
     return "%s %s: %s" % (case["fs"], case["relation"], " || ".join(
         "; ".join("%s(%s)" % (c["m"], ",".join(c["args"])) for c in th) for th in case["threads"]))
@@ -917,7 +987,7 @@ def plan_schedules(case, params, rnd, stats):
     """Yield (phase, schedule, policy).  Level 0: the non-preemptive runs; level 1: every
     single preemption; level 2: every (or a sample of the) second preemption."""
     nthreads = len(case["threads"])
-    stats.update(l1_total=0, l1_run=0, l2_total=0, l2_run=0)
+    stats.update(l1_total=0, l1_run=0, l2_total=0, l2_run=0, c2_total=0, c2_run=0)
     roots = []
     for first in range(nthreads):
         res = yield ("np", [first], None)
@@ -929,12 +999,12 @@ def plan_schedules(case, params, rnd, stats):
         for sched0, res in roots:
             if res is None:
                 continue
-            for i, (c, n, stay, held) in enumerate(res.trace):
+            for i, (c, n, stay, held, ic) in enumerate(res.trace):
                 if i == 0 or n < 2:
                     continue        # i == 0 is the initial pick (the roots)
                 for alt in range(n):
                     if alt != c:    # stay: a preemption; not stay: another free choice
-                        cand.append(([x[0] for x in res.trace[:i]] + [alt], i, held))
+                        cand.append(([x[0] for x in res.trace[:i]] + [alt], i, held, ic))
         stats["l1_total"] = len(cand)
         if len(cand) > params["cap1"]:
             # preemptions of a thread that holds no lock first (the gaps of check-then-act
@@ -944,14 +1014,32 @@ def plan_schedules(case, params, rnd, stats):
             k_free = min(len(free), max(params["cap1"] * 3 // 4, params["cap1"] - len(held_)))
             cand = rnd.sample(free, k_free) + rnd.sample(held_, params["cap1"] - k_free)
             cand.sort(key=lambda x: x[1])
-        for sch, i, _h in cand:
+        for sch, i, _h, ic in cand:
             res = yield ("p1", sch, None)
             stats["l1_run"] += 1
             if res is not None:
-                level1.append((sch, i, res))
+                level1.append((sch, i, res, ic))
+    if params.get("cache2"):
+        # EXHAUSTIVE double preemption inside the pattern cache code: first preemption at a
+        # line of lrucache/wildcard/glob, second preemption (of whichever thread runs then)
+        # at a later line of these files
+        cand = []
+        for sch, i, res, ic in level1:
+            if not ic:
+                continue
+            for j in range(i + 1, len(res.trace)):
+                c, n, stay, _h, ic2 = res.trace[j]
+                if n > 1 and (ic2 or not stay):
+                    for alt in range(n):
+                        if alt != c:
+                            cand.append([x[0] for x in res.trace[:j]] + [alt])
+        stats["c2_total"] = len(cand)
+        for sch in cand:
+            yield ("cache-p2", sch, None)
+            stats["c2_run"] += 1
     if bound >= 2 and params["cap2"] > 0:
         cand = []
-        for sch, i, res in level1:
+        for sch, i, res, _ic in level1:
             for j in range(i + 1, len(res.trace)):
                 c, n = res.trace[j][0], res.trace[j][1]
                 if n > 1:
@@ -984,7 +1072,7 @@ def explore_case(case, params, seed):
     rnd = random.Random("%s|%s" % (seed, json.dumps(case, sort_keys=True)))
     out = dict(case=case, schedules=0, phases=collections.Counter(), failures={},
                outcomes=collections.Counter(), distinct=set(), trivial=False, seq_n=0,
-               steps=0, lock_blocks=0, l1=(0, 0), l2=(0, 0), error=None, max_choice_points=0,
+               steps=0, lock_blocks=0, l1=(0, 0), l2=(0, 0), c2=(0, 0), error=None, max_choice_points=0,
                nonseq_order=0)
     old = None
     in_main = threading.current_thread() is threading.main_thread()
@@ -1036,6 +1124,7 @@ def explore_case(case, params, seed):
                 out["distinct"].add(hash((tuple(x[0] for x in res.trace), res.key)))
         out["l1"] = (pst["l1_run"], pst["l1_total"])
         out["l2"] = (pst["l2_run"], pst["l2_total"])
+        out["c2"] = (pst["c2_run"], pst["c2_total"])
     except CaseTimeout:
         out["error"] = "case watchdog: sequential oracle or exploration did not finish"
     except Exception as e:  # noqa -- harness problem: surface it
@@ -1074,6 +1163,9 @@ def tier_plan(tier, seed):
         # every line of the package as a yield point (no pure-module reduction)
         allg = [dict(c, grain="all") for c in pair_cases("MemoryFS", "quick", seed)]
         plan.append((allg, dict(bound=1, cap1=60, cap2=0, random=36, uniform=4)))
+        for kind in FS_KINDS:
+            plan.append((cache_cases(kind, True), CACHE_PARAMS))
+        plan.append((cache_cases("MemoryFS", False), CACHE_PARAMS))
     else:
         for kind in FS_KINDS:
             mem = kind == "MemoryFS"
@@ -1083,6 +1175,8 @@ def tier_plan(tier, seed):
                 off = FS_KINDS.index(kind)
                 cases = [c for k, c in enumerate(cases) if (k + off + seed) % 4 == 0]
             plan.append((cases, dict(bound=1, cap1=14, cap2=0, random=26, uniform=0)))
+        plan.append((cache_cases("MemoryFS", True), CACHE_PARAMS))
+        plan.append((cache_cases("MemoryFS", False), CACHE_PARAMS))
     return plan
 
 
@@ -1106,6 +1200,8 @@ class Stats(object):
         self.l1_capped = 0
         self.l2_exhausted = 0
         self.l2_capped = 0
+        self.cache_cases = 0
+        self.cache_double = 0
         self.cases_with_two_seq_outcomes = 0
         self.both_orders_seen = 0
         self.max_choice_points = 0
@@ -1147,6 +1243,9 @@ class Stats(object):
                 self.l2_exhausted += 1
             else:
                 self.l2_capped += 1
+        if o["c2"][1]:
+            self.cache_cases += 1
+            self.cache_double += o["c2"][0]
         if o["seq_n"] > 1:
             self.cases_with_two_seq_outcomes += 1
         if o["nonseq_order"]:
@@ -1170,7 +1269,7 @@ def explore(tier, seed, procs=None, budget_s=None, plan=None):
         budget_s = 840 if tier == "thorough" else 62
     units = []
     for cases, params in plan:
-        size = 6 if tier == "thorough" else 12
+        size = params.get("unit") or (6 if tier == "thorough" else 12)
         for i in range(0, len(cases), size):
             units.append((cases[i:i + size], params, seed))
     # spread the kinds / phases so that a time cut never removes a whole class
@@ -1329,7 +1428,10 @@ RULE = ("case = (filesystem kind in MemoryFS/OSFS(temp dir)/MountFS(one MemoryFS
         "4-5 path configurations each (file, empty dir, non-empty dir, missing), schedule). Calls "
         "from 25 templates over 21 methods (move/copy/movedir/copydir with the related path as "
         "source and as destination); reader||reader pairs are skipped except glob/walk (pattern "
-        "caches, cold and warm). Every schedule starts from the same fixed tree (6 dirs, 8 files) "
+        "caches, cold and warm). Pattern cache cases: FS.match / match_glob / filterdir / walk.files / "
+        "glob.count with the SAME pattern against each other on a warm and on a cold cache, with "
+        "every single preemption and EVERY double preemption whose switch points are lines of "
+        "fs/lrucache.py, fs/wildcard.py, fs/glob.py. Every schedule starts from the same fixed tree (6 dirs, 8 files) "
         "on a fresh instance. Schedules per case: both non-preemptive orders, single preemptions "
         "(all, or a seeded sample of cap1), double preemptions (seeded sample of cap2; thorough), "
         "random 1-4 preemption schedules, uniform random schedules; yield point = every line of "
@@ -1369,6 +1471,8 @@ def coverage(st, tier, groups):
         single_preemption_levels_exhausted=st.l1_exhausted, single_preemption_levels_sampled=st.l1_capped,
         double_preemption_levels_exhausted=st.l2_exhausted, double_preemption_levels_sampled=st.l2_capped,
         max_choice_points_in_a_run=st.max_choice_points,
+        pattern_cache_cases_with_exhaustive_double_preemption=st.cache_cases,
+        pattern_cache_double_preemption_schedules=st.cache_double,
         failing_case_kinds=len(st.failing), unknown_failure_signatures=sorted(groups)[:40],
         units=getattr(st, "units", None), units_skipped_by_time_budget=st.skipped,
         explore_wall_s=round(st.wall, 1), exhaustive=False,
